@@ -14,6 +14,7 @@ import (
 	"sort"
 	"strings"
 	"testing"
+	"time"
 
 	cebpf "github.com/cilium/ebpf"
 	"github.com/codelaboratoryltd/bng/pkg/nat"
@@ -54,6 +55,12 @@ type sys struct {
 	// every record written after it must be on disk.
 	faultUsed        bool
 	fAlloc, fDealloc int // successful operations executed under the fault (their records are optional)
+	// retention: "Quiet+Sweep" = nothing is logged for longer than MaxAge (all files of the log directory are
+	// back-dated), then the hourly retention sweep runs. Rotated files may legitimately age out: their content is
+	// archived by the harness first (as an operator would before deleting history). The LIVE file holds the only
+	// copy of its records and receives all later ones: it must survive.
+	sweepUsed bool
+	archive   bytes.Buffer
 }
 
 func subIP(i int) net.IP { return net.IPv4(100, 64, 0, byte(10+i)) }
@@ -71,7 +78,8 @@ func newSys(c cfg) *sys {
 		logDir, _ = os.MkdirTemp(base, "l")
 		lcfg.FilePath = filepath.Join(logDir, "nat.log")
 		lcfg.MaxFileSize = int64(c.fileLog)
-		lcfg.BufferSize = 1 // write through: every record crosses the rotation logic on its own
+		lcfg.BufferSize = 1     // write through: every record crosses the rotation logic on its own
+		lcfg.MaxAge = time.Hour // retention is on: see the "Quiet+Sweep" operation
 	}
 	lg, err := nat.NewLogger(lcfg, zap.NewNop())
 	if err != nil {
@@ -82,9 +90,16 @@ func newSys(c cfg) *sys {
 		lg.VerifSetWriter(buf)
 	}
 	m.SetLogger(lg)
-	for i := 0; i < c.publics; i++ {
-		if err := m.AddPublicIP(net.IPv4(203, 0, 113, byte(1+i))); err != nil {
+	if strings.Contains(c.name, "range-api") {
+		// the pool is configured through the range API (one call for all public addresses)
+		if err := m.AddPublicIPRange(net.IPv4(203, 0, 113, 1), net.IPv4(203, 0, 113, byte(c.publics))); err != nil {
 			panic(err)
+		}
+	} else {
+		for i := 0; i < c.publics; i++ {
+			if err := m.AddPublicIP(net.IPv4(203, 0, 113, byte(1+i))); err != nil {
+				panic(err)
+			}
 		}
 	}
 	st := &sys{c: c, m: m, lg: lg, buf: buf, ref: map[int]block{}, logDir: logDir}
@@ -104,6 +119,9 @@ func (s *sys) Ops() []string {
 	for i := 0; i < s.c.subs; i++ {
 		ops = append(ops, fmt.Sprintf("Allocate(%d)", i), fmt.Sprintf("Deallocate(%d)", i))
 	}
+	if s.logDir != "" && !s.sweepUsed {
+		ops = append(ops, "Quiet+Sweep")
+	}
 	if s.logDir != "" && !s.faultUsed { // at most one deviation per history
 		for i := 0; i < s.c.subs; i++ {
 			ops = append(ops, fmt.Sprintf("Allocate(%d)@nodir", i), fmt.Sprintf("Deallocate(%d)@nodir", i))
@@ -118,6 +136,22 @@ func (s *sys) v(kind, site, f string, a ...any) {
 
 func (s *sys) Apply(op string) string {
 	var i int
+	if op == "Quiet+Sweep" {
+		s.sweepUsed = true
+		s.lg.Flush()
+		s.lg.FlushPortBlocks()
+		names, _ := filepath.Glob(filepath.Join(s.logDir, "nat.log.*"))
+		sort.Strings(names)
+		for _, n := range names {
+			b, _ := os.ReadFile(n)
+			s.archive.Write(b)
+			os.Remove(n) // archived: whether retention would have deleted it or not no longer matters
+		}
+		old := time.Now().Add(-3 * time.Hour)
+		os.Chtimes(filepath.Join(s.logDir, "nat.log"), old, old)
+		s.lg.VerifCleanOldLogs()
+		return "swept"
+	}
 	fault := strings.HasSuffix(op, "@nodir")
 	if fault {
 		op = strings.TrimSuffix(op, "@nodir")
@@ -188,7 +222,7 @@ func (s *sys) logFiles() string {
 		cur = fi.Size()
 	}
 	names, _ := filepath.Glob(filepath.Join(s.logDir, "nat.log.*"))
-	return fmt.Sprintf("|file=%d rotated=%d fault=%v/%d/%d", cur, len(names), s.faultUsed, s.fAlloc, s.fDealloc)
+	return fmt.Sprintf("|file=%d rotated=%d fault=%v/%d/%d sweep=%v", cur, len(names), s.faultUsed, s.fAlloc, s.fDealloc, s.sweepUsed)
 }
 
 // Check: N1 non-overlap, N2 range/size, N3 stability via GetAllocation, N4 log attribution.
@@ -200,7 +234,10 @@ func (s *sys) Check() []explore.Viol {
 	sort.Ints(ids)
 	for _, i := range ids {
 		b := s.ref[i]
-		// N2
+		// N2: a configured public address
+		if ip := net.ParseIP(b.pub).To4(); ip == nil || ip[0] != 203 || ip[1] != 0 || ip[2] != 113 || int(ip[3]) < 1 || int(ip[3]) > s.c.publics {
+			s.v("range", "AllocateNAT", "holder %d block %v is on a public address that was not configured (203.0.113.1..%d)", i, b, s.c.publics)
+		}
 		if b.start < s.c.start || b.end > s.c.end || b.end < b.start {
 			s.v("range", "AllocateNAT", "holder %d block %v outside configured range %d-%d", i, b, s.c.start, s.c.end)
 		}
@@ -265,6 +302,7 @@ func (s *sys) Check() []explore.Viol {
 		names, _ := filepath.Glob(filepath.Join(s.logDir, "nat.log.*"))
 		sort.Strings(names)
 		names = append(names, filepath.Join(s.logDir, "nat.log"))
+		s.buf.Write(s.archive.Bytes())
 		for _, n := range names {
 			b, _ := os.ReadFile(n)
 			s.buf.Write(b)
@@ -373,6 +411,11 @@ func configs(thorough bool) []cfg {
 			cfg{"singleblock-3ip", 1024, 1031, 8, 3, subs, bulk, 0, 0},
 		)
 	}
+	// the same geometries with the pool built through AddPublicIPRange instead of repeated AddPublicIP
+	out = append(out,
+		cfg{"nondividing-2ip range-api", 1000, 1009, 3, 2, subs, true, 0, 0},
+		cfg{"singleblock-3ip range-api", 1024, 1031, 8, 3, subs, false, 0, 0},
+	)
 	// file-backed logger with rotation: at most one rotation within the explored depth (700 bytes), and several (250 bytes)
 	out = append(out,
 		cfg{"nondividing-2ip file-log-rotate700", 1000, 1009, 3, 2, 3, true, 700, 0},
@@ -396,10 +439,16 @@ func models(run *report.Run) []*explore.Model {
 	var ms []*explore.Model
 	for _, c := range configs(run.Thorough()) {
 		c := c
+		d, n := depth, nd
+		if c.fileLog > 0 && !run.Thorough() {
+			// file-backed configurations carry two extra dimensions (directory fault, retention sweep) and do real
+			// file I/O per step: one level shallower in the quick tier
+			d, n = depth-1, nd-1
+		}
 		ms = append(ms, &explore.Model{
 			Name: "nat.Manager", Config: fmt.Sprintf("%s bulk=%v subs=%d", c.name, c.bulk, c.subs),
 			New:   func() explore.System { return newSys(c) },
-			Depth: depth, NoDedupDepth: nd, Classify: classify,
+			Depth: d, NoDedupDepth: n, Classify: classify,
 		})
 	}
 	return ms
